@@ -13,7 +13,7 @@ import (
 func init() {
 	Drivers["C14"] = driveC14
 	Levels["C14"] = "exploration"
-	Rules["C14"] = "one run = one generated schema document (keyword-rich, 2020-12 or draft-07, optionally with Loader-supplied documents) + 2-5 instances + a history of 4-12 Resolve/Validate/Marshal calls, executed on ONE schema tree under the canonical schedule and then under N further schedules (map order per site visit: reversed/rotated/shuffled/mixed; hash seed; collision mask). Oracles: purity fingerprints after every call, repeatability inside a history, equal result vectors across schedules. Non-trivial = >=2 controlled site visits served a >=2-entry map in non-canonical order AND the history contains both a valid and an invalid verdict. Distinct = hash(schema text, instances, history) x order-vector hash."
+	Rules["C14"] = "one run = one generated schema document (keyword-rich, cluster or annotation-centred, 2020-12 or draft-07, optionally with Loader-supplied documents) + 2-5 instances (one in four with members behind Go pointers, one pointer shared by two members) + a history of 4-12 Resolve/Validate/Marshal calls, executed on ONE schema tree under the canonical schedule and then under N further schedules (map order per site visit: reversed/rotated/shuffled/mixed; hash seed; collision mask). Oracles: purity fingerprints after every call, repeatability inside a history, equal result vectors across schedules. Non-trivial = >=2 controlled site visits served a >=2-entry map in non-canonical order AND the history contains both a valid and an invalid verdict. Distinct = hash(schema text, instances, history) x order-vector hash."
 }
 
 type histOp struct {
